@@ -472,7 +472,9 @@ func runJob(p *Program, js *JobSpec, params map[string]int64, workers int, solve
 			defer func() {
 				if r := recover(); r != nil {
 					mu.Lock()
-					if se, ok := r.(solverErr); ok {
+					if len(jr.problems) > 0 && strings.HasPrefix(jr.problems[len(jr.problems)-1], "engine failure") {
+						// one stack trace is enough
+					} else if se, ok := r.(solverErr); ok {
 						jr.problems = append(jr.problems, "solver: "+se.msg)
 					} else {
 						buf := make([]byte, 1<<14)
